@@ -467,6 +467,10 @@ def _job_child(conn, job):
         conn.close()
 
 
+CRASH_SIGNALS = {-11: 'SIGSEGV', -6: 'SIGABRT', -7: 'SIGBUS', -4: 'SIGILL',
+                 -8: 'SIGFPE'}
+
+
 def _run_jobs(jobs, nproc):
     """Run every job in a process of its own, at most ``nproc`` at a time,
     and yield the task results.  A process that dies without a result (killed
@@ -507,6 +511,16 @@ def _run_jobs(jobs, nproc):
                         queue.append(([arg], tries))
                 elif tries < 1:
                     queue.append((job, tries + 1))
+                elif p.exitcode in CRASH_SIGNALS:
+                    # the interpreter itself crashed, twice, on this task:
+                    # nothing in the (pure Python) harness can do that
+                    st = Stats()
+                    st.violation(
+                        'interpreter-crash:%s' % CRASH_SIGNALS[p.exitcode],
+                        'the process running this task died of %s twice'
+                        % CRASH_SIGNALS[p.exitcode],
+                        {'crashed_task': [job[0][0], list(job[0][1])]})
+                    yield (job[0][0], st, None, 0)
                 else:
                     yield (job[0][0], None,
                            'worker process died twice (exit code %r) while '
@@ -889,6 +903,14 @@ def write_evidence(prop, module, tier, seed, checks, merged, known_hits,
     os.replace(tmp, path)
 
 
+def _retuple(v):
+    """JSON turned the tuples of a task description into lists."""
+    if isinstance(v, list):
+        return tuple(_retuple(x) for x in v)
+
+    return v
+
+
 def run_replay(prop, module, path, out=sys.stdout):
     with open(path) as fp:
         rec = json.load(fp)
@@ -900,7 +922,23 @@ def run_replay(prop, module, path, out=sys.stdout):
         raise sut.HarnessError('check %r cannot replay' % rec.get('check'))
 
     st = Stats()
-    guarded(check.run_case, from_jsonable(rec['case']), st)
+    case = from_jsonable(rec['case'])
+
+    if isinstance(case, dict) and 'crashed_task' in case:
+        # an interpreter crash: run the task again, in a process of its own
+        _CHECKS.clear()
+        _CHECKS.update(by_name)
+        name, task = case['crashed_task']
+        task = tuple(_retuple(task))
+
+        for _name, st2, err, _dt in _run_jobs([[(name, task)]], 1):
+            if err is not None:
+                raise sut.HarnessError(err)
+
+            st.merge(st2)
+    else:
+        guarded(check.run_case, case, st)
+
     known = {k[1]: v for k, v in load_known().items() if k[0] == prop}
     bad = [k for k in st.buckets if k not in known]
 
